@@ -24,6 +24,8 @@ def jobs(tier):
     J.append(Job(S, "barrier", "2,0,0,0", {"reader": 0, "await_flag": 0, "second_cb": 1}, workers=8))
     J.append(Job(S, "barrier", "1,0,0,0" if q else "2,0,0,0", {"reader": 0, "per_thread": 1}, workers=8))
     J.append(Job(S, "barrier", "1,1,0,0,1" if q else "1,1,0,0", {"reader": 0, "per_thread": 1}, workers=8))
+    J.append(Job(S, "barrier", "1,0,0,0,0" if q else "2,0,0,0,0", {"reader": 0, "per_cpu": 1}, {"VRT_NCPUS": 2}, workers=8))
+    J.append(Job(S, "barrier", "1,0,0,0,0", {"reader": 0, "per_cpu": 1, "per_thread": 1, "await_flag": 0}, {"VRT_NCPUS": 2}, workers=8))
     J.append(Job(S, "barrier2", "1,0,0,0" if q else "2,0,0,0", workers=8))
     J.append(Job(S, "barrier2", "0,0,1,0" if q else "1,0,1,0", workers=8))
     J.append(Job(S, "barrier_churn", "1,0,0,0" if q else "2,0,0,0", workers=8))
